@@ -5,6 +5,7 @@ import (
 	"fmt"
 	"runtime"
 	"sync"
+	"testing/synctest"
 	"time"
 
 	"github.com/benbjohnson/clock"
@@ -26,6 +27,36 @@ import (
 //     goroutine to make progress; a real-time watchdog on them yields "inconclusive", never a violation;
 //   - a timer re-armed with a non-positive duration fires in the next flush round of the same step,
 //     like a real timer would (the bare mock would leave it pending until the next Add).
+// driver is what a trace needs from time: start managers and move to an instant such that everything
+// due by then has been handled. Two implementations: stepClock (mock clock, below) and bubbleDriver
+// (the production clock.New() inside a testing/synctest bubble: virtual time, synctest.Wait is the
+// exact quiescence point; real timer semantics).
+type driver interface {
+	newManager(key ic.PrivKey) (*mgr, error)
+	advance(to time.Time, ms ...*mgr) error
+}
+
+var bubbleEpoch = time.Date(2000, 1, 2, 0, 0, 0, 0, time.UTC) // virtual time starts at 2000-01-01
+
+type bubbleDriver struct{}
+
+func (bubbleDriver) newManager(key ic.PrivKey) (*mgr, error) {
+	v, err := libp2pwebtransport.VerifNewCertManager(key, clock.New())
+	if err != nil {
+		return nil, err
+	}
+	synctest.Wait()
+	return &mgr{v: v}, nil
+}
+
+func (bubbleDriver) advance(to time.Time, _ ...*mgr) error {
+	if d := to.Sub(time.Now()); d > 0 {
+		time.Sleep(d)
+	}
+	synctest.Wait()
+	return nil
+}
+
 type stepClock struct {
 	*clock.Mock
 	mu      sync.Mutex
